@@ -1230,7 +1230,7 @@ def cases_c10(tier, seed):
     cases = []
     k = 0
     for wl in ("fixed1", "fixedN", "var", "bdel", "bdelN"):
-        for (pin, reopen) in (((100, 150), 0), (None, 25), ("chain", 0)) if q else (((100, 150), 0), (None, 25), ((100, 150), 40), (None, 0), ((300, 600), 100), ("chain", 0), ("chain", 50)):
+        for (pin, reopen) in (((100, 150), 0), (None, 25), ("chain", 0)) if q else (((100, 150), 0), (None, 25), ((100, 150), 40), (None, 0), ((300, 450), 100), ("chain", 0), ("chain", 50)):
             label = "g10 %s ntx=%d pin=%s reopen=%d seed=%d" % (wl, n, pin, reopen, seed * 10 + k)
             C10_META[label] = dict(workload=wl, ntx=n, pin=pin)
             cases.append((label, gen.g10(seed * 10 + k, wl, ntx=n, pin=pin, reopen_every=reopen)))
@@ -1255,7 +1255,7 @@ def check_c10(tier, seed):
     return history_property(
         # the initial file is large enough that no commit has to extend it: a writer that must remap the file waits for every
         # open reader, and the single-threaded interpreter holds the pinned reader itself (it would wait for ever, by design)
-        "C10", tier, seed, cases_c10(tier, seed), dict(pagesize=1024, num_pages=3000 if tier == "quick" else 8000),
+        "C10", tier, seed, cases_c10(tier, seed), dict(pagesize=1024, num_pages=3000 if tier == "quick" else 12000),
         "long runs (quick 300, thorough 900 transactions) over 40 keys: fixed-size single-page overwrites, fixed-size multi-page values, "
         "variable sizes with deletes, nested bucket create/fill/delete; with a reader pinned for 50 commits, with reopen every 25/40 commits; "
         "the high-water mark is read from EVERY committed header by the Gallina decoder: no growth between warm-up and the pin, growth only "
